@@ -455,7 +455,7 @@ Definition ac_step (prec : Z) (actbl : ctbl) (v : Z) (acc : option (bitstate * Z
           let nz := r / 256 in
           let st1 := fold_left (fun s _ => put_bits s (nthZ (ehufco actbl) 240) (nthZ (ehufsi actbl) 240))
                                (seq 0 (Z.to_nat nz)) st in
-          let r1 := r - 256 * nz + nb in
+          let r1 := r - nz * 256 + nb in
           Some (put_code st1 temp nb (nthZ (ehufco actbl) (Z.to_nat r1)) (nthZ (ehufsi actbl) (Z.to_nat r1)), 0)
   end.
 
